@@ -158,3 +158,14 @@ def has(root, text):
 
 def count(root, text):
     return len(find(root, text))
+
+
+def matches(node, text, env=None):
+    """does this very node (expression or single statement) match the pattern"""
+    kind, pat = compile_pattern(text)
+    env = {} if env is None else env
+    if kind == "expr":
+        if isinstance(node, ast.Expr):
+            node = node.value
+        return match(pat, node, env)
+    return len(pat) == 1 and match(pat[0], node, env)
